@@ -35,11 +35,43 @@ def run_cli(cmd, text, timeout):
         os.unlink(path)
 
 
+def race_cli(text, timeout_s, wait_all=False):
+    """run z3 4.8.12 and cvc5 1.0.3 concurrently on the same SMT-LIB text; stop at the first `unsat` unless wait_all"""
+    with tempfile.NamedTemporaryFile('w', suffix='.smt2', delete=False, dir=os.environ.get('PYVC_TMP', None)) as f:
+        f.write(text)
+        path = f.name
+    cmds = {'z3-4.8.12': [Z3_OLD, f'-T:{max(1, int(timeout_s))}', path], 'cvc5-1.0.3': [CVC5, '--strings-exp', f'--tlimit={int(timeout_s * 1000)}', path]}
+    t0 = time.time()
+    procs = {n: subprocess.Popen(c, stdout=subprocess.PIPE, stderr=subprocess.DEVNULL, text=True) for n, c in cmds.items()}
+    out = {}
+    try:
+        while procs and time.time() - t0 < timeout_s + 3:
+            for n, p in list(procs.items()):
+                if p.poll() is not None:
+                    lines = (p.stdout.read() or '').strip().splitlines()
+                    ans = lines[0] if lines and lines[0] in ('sat', 'unsat', 'unknown') else 'unknown'
+                    out[n] = (ans, time.time() - t0)
+                    del procs[n]
+                    if ans == 'unsat' and not wait_all:
+                        raise StopIteration
+            time.sleep(0.01)
+    except StopIteration:
+        pass
+    finally:
+        for n, p in procs.items():
+            p.kill()
+            p.wait()
+            out.setdefault(n, ('unknown', time.time() - t0))
+        os.unlink(path)
+    return out
+
+
 def check(hyps, goal, timeout_ms=10000, want_model=True, second=False, first_ms=300):
     """-> dict(result='unsat'|'sat'|'unknown', model, seconds, backend, second=...)
     portfolio: z3 5.1.0 in process (short budget) -> z3 4.8.12 / cvc5 1.0.3 on the exported text -> z3 5.1.0 full budget.
     Models are only taken from the in-process solver."""
-    q = [z3.simplify(x) for x in list(hyps) + [z3.Not(goal)]]
+    from .values import simp
+    q = [simp(x) for x in list(hyps) + [z3.Not(goal)]]
     q = q + ground_axioms(q)
     t0 = time.time()
 
@@ -50,39 +82,44 @@ def check(hyps, goal, timeout_ms=10000, want_model=True, second=False, first_ms=
         r = s.check()
         return r, (s.model() if r == z3.sat else None)
     size = sum(len(x.sexpr()) for x in q[:50])
+    bk = f"z3py-{z3.get_version_string()}"
     # stage 0: recursive definitions replaced by uninterpreted twins (plus the instantiated lemmas): unsat here is unsat there
     s0 = z3.Solver()
-    s0.set('timeout', min(1000, timeout_ms))
+    s0.set('timeout', min(400, timeout_ms))
     s0.add(*abstract_recs(q))
     if s0.check() == z3.unsat and not second:
-        return dict(result='unsat', model=None, backend=f"z3py-{z3.get_version_string()} (recursive definitions abstracted)", size=size, seconds=time.time() - t0)
-    r, model = inproc(min(first_ms, timeout_ms))
-    res = dict(result=str(r), model=model, backend=f"z3py-{z3.get_version_string()}", size=size)
+        return dict(result='unsat', model=None, backend=bk + " (recursive definitions abstracted)", size=size, seconds=time.time() - t0)
+    res = dict(result='unknown', model=None, backend=bk, size=size)
+    text = None
+    try:
+        text = to_smt2(q)
+    except Exception as e:      # export problems never decide anything
+        res['export_error'] = str(e)[:200]
+    sec = {}
+    r = z3.unknown
+    if text is not None:
+        # stage 1: z3 4.8.12 and cvc5 1.0.3 race on the exported text (each is the only one to answer on some queries)
+        answers = race_cli(text, timeout_ms / 1000, wait_all=second)
+        for name, (rr, d2) in answers.items():
+            sec[name] = (rr, round(d2, 3))
+        unsat_by = [n for n, (rr, _) in answers.items() if rr == 'unsat']
+        sat_by = [n for n, (rr, _) in answers.items() if rr == 'sat']
+        if unsat_by and not sat_by:
+            res.update(result='unsat', backend=unsat_by[0])
+            r = z3.unsat
+        res['second'] = sec
     if r == z3.unknown or second:
-        text = None
-        try:
-            text = to_smt2(q)
-        except Exception as e:      # export problems never decide anything
-            res['export_error'] = str(e)[:200]
-        sec = {}
-        if text is not None:
-            for name, cmd in (('z3-4.8.12', [Z3_OLD, f'-T:{max(1, timeout_ms // 1000)}']),
-                              ('cvc5-1.0.3', [CVC5, '--strings-exp', f'--tlimit={timeout_ms}'])):
-                rr, d2 = run_cli(cmd, text, timeout_ms / 1000)
-                sec[name] = (rr, round(d2, 3))
-                if r == z3.unknown and rr == 'unsat':
-                    res.update(result='unsat', backend=name)
-                    r = z3.unsat
-                    if not second:
-                        break
-            res['second'] = sec
+        # stage 2: z3 5.1.0 in process with the definitions: the only source of models
+        r2, model = inproc(timeout_ms)
         if r == z3.unknown:
-            r, model = inproc(timeout_ms)
-            res.update(result=str(r), model=model, backend=f"z3py-{z3.get_version_string()}")
-        if res['result'] == 'unsat' and any(v[0] == 'sat' for v in sec.values()):
+            res.update(result=str(r2), model=model, backend=bk)
+        elif str(r2) == 'sat':
             res['disagreement'] = True
-        if res['result'] == 'sat' and any(v[0] == 'unsat' for v in sec.values()):
-            res['disagreement'] = True
+        sec[bk] = (str(r2), 0)
+    if res['result'] == 'unsat' and any(v[0] == 'sat' for v in sec.values()):
+        res['disagreement'] = True
+    if res['result'] == 'sat' and any(v[0] == 'unsat' for v in sec.values()):
+        res['disagreement'] = True
     res['seconds'] = time.time() - t0
     return res
 
